@@ -56,6 +56,13 @@ CLAIMS["C05"] = (
     "DESIGN.md §3 C05",
 )
 
+CLAIMS["C03"] = (
+    "store-effect summaries over SSA (which Mlrval parameters may have their retained text altered), propagated through static calls, inferrer tables, the inferrer variable and disposition tables; constructor classification in readers/writers",
+    "Decides the mechanism byte-for-byte pass-through rests on: nothing reachable from type inference alters the retained original text (every printrep store re-installs the same value's text; no whole-value overwrite); String()/setPrintRep render lazily; every registered built-in function, every formatter, every accessor/predicate/comparator of mlrval and every accumulator leaves its arguments' text alone; in-place alteration of existing values happens only at frozen documented sites; readers build values only with text-retaining constructors; writers print retained text. It does not decide that verbs/DSL assign only what they should.",
+    "Trusts go/ssa; dynamic calls other than the recognised forms (global func variables, func tables) are not followed. YAML input losing number spelling is a known finding.",
+    "DESIGN.md §3 C03",
+)
+
 NOT_APPLICABLE = {
     "C13": "Join pairing, ordering and unpaired accounting are relational identities over run-time key values and bucket contents; no clause is a shape fact visible to static analysis (the shared protocol facts are reported under C04/C10/C17).",
 }
